@@ -70,6 +70,34 @@ Theorem C30_new_psnps : forall (src : list N) (es : list lspentry) (maxlen : Z) 
 Proof. exact new_psnps_roundtrip. Qed.
 Print Assumptions C30_new_psnps.
 
+(* The TLV constructors compute TLVLength in uint8: as long as the content needs at most 255 value bytes
+   the TLV they return is well-formed, i.e. by the round trip theorems a PDU carrying it decodes back. *)
+Theorem C30_constructors_wf :
+  (forall areas, N.of_nat (length (concat (map enc_area areas))) < 256 -> wf_tlv (new_area_tlv areas)) /\
+  (forall nm, N.of_nat (length nm) < 256 -> wf_tlv (new_dynhost_tlv nm)) /\
+  (forall ids, N.of_nat (length ids) < 256 -> wf_tlv (new_proto_tlv ids)) /\
+  (forall addrs, Forall u32 addrs -> 4 * N.of_nat (length addrs) < 256 -> wf_tlv (new_ipif_tlv addrs)) /\
+  (forall es, Forall wf_entry es -> 16 * N.of_nat (length es) < 256 -> wf_tlv (new_entries_tlv es)) /\
+  (forall st ecid, u32 ecid -> wf_tlv (new_p2padj_tlv st ecid)) /\
+  (forall len, len < 256 -> wf_tlv (new_padding_tlv len)) /\
+  (forall a, wf_tlv (new_terid_tlv a)) /\
+  (forall specs : list (list N * N * list subtlv),
+     Forall (fun s => match s with (id, _, subs) =>
+       len_is id 7 /\ Forall sub_ok subs /\ N.of_nat (length (concat (map enc_sub subs))) < 256 end) specs ->
+     let ns := map (fun s => match s with (id, m, subs) => new_extis_nbr id m subs end) specs in
+     N.of_nat (length (concat (map enc_extisnbr ns))) < 256 -> wf_tlv (new_extis_tlv ns)) /\
+  (forall rs : list (N * N * N),
+     N.of_nat (length (concat (map enc_extip (map (fun r => match r with (m, p, a) => mkExtIp m p a [] end) rs)))) < 256 ->
+     wf_tlv (new_extip_tlv rs)).
+Proof. exact ctors_wf. Qed.
+Print Assumptions C30_constructors_wf.
+
+(* the limit is real: 29 /32 prefixes need 261 value bytes, the length byte says 5 *)
+Example C30_example_extip_overflow :
+  tlv_len (new_extip_tlv (repeat (10, 32, 167772161) 29)) = 5 /\
+  length (tlv_value (new_extip_tlv (repeat (10, 32, 167772161) 29))) = 261%nat.
+Proof. vm_compute. split; reflexivity. Qed.
+
 (* ---- non-vacuity *)
 
 Definition ex_llc : list N := [254; 254; 3].
